@@ -188,7 +188,7 @@ func runCheck(o *checkOpts) int {
 
 	e := &Engine{prog: prog, spkgs: map[string]*ssa.Package{}, tpkgs: map[string]*packages.Package{}, specs: specs, modPath: modulePath,
 		fnByKey: map[string]*ssa.Function{}, leafCache: map[string][]Leaf{}, keySort: map[string]Sort{}, keyIsRef: map[string]bool{}, typeIDs: map[string]int{},
-		refAxioms: true, maxPaths: 30000, maxDepth: 4,
+		refAxioms: true, maxPaths: 30000, maxDepth: 4, unitBudget: 90 * time.Second,
 		unmodel: map[string]map[string]bool{}, skipped: map[string]map[string]bool{}, inlined: map[string]map[string]bool{}, trustedCs: map[string]map[string]bool{}, intrUsed: map[string]map[string]bool{}, unitAssume: map[string]map[string]bool{}}
 	packages.Visit(pkgs, nil, func(p *packages.Package) { e.tpkgs[p.PkgPath] = p })
 	for _, sp := range prog.AllPackages() {
